@@ -37,6 +37,8 @@ def jobs():
         jobs_writer.register_ext(_JOBS)
         from . import jobs_options
         jobs_options.register(_JOBS)
+        from . import jobs_tool
+        jobs_tool.register(_JOBS)
         from . import jobs_rfwc
         jobs_rfwc.register(_JOBS)
         names = [j.name for j in _JOBS]
@@ -234,3 +236,14 @@ prop("C15", "model_checking",
      "(does not fit). Trusted: strsep/asprintf models.",
      "CBMC bounded symbolic execution: parser scenarios with PYTHON_STYLE, join_same_entries in isolation, option "
      "tokenizer over an item catalogue", "6 C15")
+
+prop("C19", "model_checking",
+     "util/econftool.c is compiled as it is (main renamed) and its show/syntax/cat functions are run as real code "
+     "against executable contracts of the library API over a ghost configuration with symbolic numbers of sections, "
+     "keys and group-less keys: show prints every section, key and value - group-less keys included - and nothing "
+     "else; syntax/show fail exactly when the library reports an error and then print the error location; cat "
+     "prints every history member once in processing order; replace_str stays inside its static buffer.",
+     "Bounded: <= 2 sections x <= 2 keys + <= 2 group-less keys, history of <= 3 files. main()'s option parsing "
+     "(getopt, environment, path set-up) and the edit/revert commands are not under check; the exit status path "
+     "`return ret` is read, not verified. The library side is C01/C11/C12/C17.",
+     "CBMC bounded symbolic execution of econftool's functions against executable library contracts", "6 C19")
